@@ -175,6 +175,68 @@ pub fn run(ctx: &Ctx) -> i32 {
         ctx.sample(json!({"family": "mapper", "case": "indices=[1, 256] colours=[0, 0] failure=7 transparent=Some(9)", "meaning": "colour c1 at palette indices 1 and 256; opaque c1 may map to 1 or to the failure index 7, any alpha != 255 maps to 9"}));
     }
 
+    // ---- PaletteMapper on palettes that do not start at index 0 or have gaps
+    if ctx.wants_family("mapper-offset") {
+        let mut cases: Vec<(u8, u32, usize)> = Vec::new();
+        for kind in 0..3u8 {
+            for first in [1u32, 3, 5, 100, 250, 255] {
+                for len in [1usize, 2, 6, 10] {
+                    cases.push((kind, first, len));
+                }
+            }
+        }
+        ctx.family("mapper-offset", cases.len() as u64, "palettes whose ids are not 0..n: new-format chunk with first in {1,3,5,100,250,255} x length {1,2,6,10} (kind 0), legacy 0x0004 with a leading skip (kind 1), legacy with a gap in the middle (kind 2); every entry's colour must map to its own index when that is below 256, absent colours to the failure index", true);
+        cases.par_iter().for_each(|(kind, first, len)| {
+            let case = || format!("kind={} first={} len={}", kind, first, len);
+            if !ctx.wants("mapper-offset", &case) {
+                return;
+            }
+            let col = |i: u32| [(i * 7 + 3) as u8, (200 - i % 100) as u8, (i * 3) as u8];
+            let mut f = gen::file(1, 1, &Fmt::Rgba, &[1]);
+            let ids: Vec<u32> = match kind {
+                0 => (*first..*first + *len as u32).collect(),
+                1 => (*first.min(&255)..(*first.min(&255) + *len as u32).min(256)).collect(),
+                _ => (0..2u32).chain((*first.min(&200) + 2)..(*first.min(&200) + 2 + *len as u32)).collect(),
+            };
+            match kind {
+                0 => {
+                    f.frames[0].push(new_palette(*first, ids.iter().map(|i| pal_entry([col(*i)[0], col(*i)[1], col(*i)[2], 255], None)).collect()));
+                }
+                1 => {
+                    f.frames[0].push(Body::OldPalette04(old_palette(vec![(ids[0] as u8, ids.iter().map(|i| col(*i)).collect())])));
+                }
+                _ => {
+                    let gap_start = ids[2];
+                    f.frames[0].push(Body::OldPalette04(old_palette(vec![(0, vec![col(0), col(1)]), (gap_start as u8, ids[2..].iter().map(|i| col(*i)).collect())])));
+                }
+            }
+            let Loaded::Ok(file) = load(&f.encode()) else {
+                ctx.violation(Violation { family: "mapper-offset".into(), case: case(), sig: "palette-file-refused".into(), detail: "palette file did not load".into(), bytes: None, extra: json!({}) });
+                return;
+            };
+            let pal = file.palette().unwrap();
+            for (failure, tr) in [(254u8, Some(253u8)), (0, None)] {
+                let mapper = PaletteMapper::new(pal, MappingOptions { failure, transparent: tr });
+                let mut results = Vec::new();
+                for i in &ids {
+                    let c = col(*i);
+                    let r = mapper.lookup(c[0], c[1], c[2], 255);
+                    results.push(r);
+                    let expect = if *i < 256 { *i as u8 } else { failure };
+                    if r != expect {
+                        ctx.violation(Violation { family: "mapper-offset".into(), case: case(), sig: "lookup:offset-palette".into(), detail: format!("colour of palette entry {} mapped to {} (expected {}), failure={}", i, r, expect, failure), bytes: Some(f.encode()), extra: json!({}) });
+                    }
+                }
+                let r = mapper.lookup(1, 1, 1, 255);
+                if r != failure {
+                    ctx.violation(Violation { family: "mapper-offset".into(), case: case(), sig: "lookup:absent".into(), detail: format!("absent colour mapped to {} instead of the failure index {}", r, failure), bytes: Some(f.encode()), extra: json!({}) });
+                }
+                ctx.eval(ids.len() as u64 + 1);
+                ctx.outcome(hash64(&results));
+            }
+        });
+    }
+
     // ---- to_indexed_image
     if ctx.wants_family("to-indexed") {
         let mut sizes = Vec::new();
